@@ -35,6 +35,34 @@ impl Prop for C07 {
             // (dynamic macro replay fast-forwards the recorded delays inside one tick_ms call: the
             // recorder's tick clock and the stepper's millisecond clock then disagree by design)
             let o = GenOpts { feats: feat::ALL_RUNTIME & !feat::DELAY & !feat::ZIPPY & !feat::DYNMACRO, max_keys: 6, max_layers: 3, max_depth: 2, hostile: false };
+            if r.chance(200) {
+                // 'loop-record': a dynamic macro is recorded through idle periods on the real loop;
+                // the recorded delays must equal those of the stepper (no replay: it fast-forwards)
+                let cfg = "(defsrc a b c j)\n(deflayer l0 x (tap-hold 30 30 y lsft) z (dynamic-macro-record 1))\n".to_string();
+                let mut case = Case { prop: "C07".into(), seed, cfg, ..Default::default() };
+                let (ka, kb, kc, kj) = (oscode_of("a"), oscode_of("b"), oscode_of("c"), oscode_of("j"));
+                let mut ops = vec![Op::Gap(r.range(1, 30) as u32), Op::Press(kj), Op::Gap(2), Op::Release(kj), Op::Gap(r.range(1, 400) as u32)];
+                for _ in 0..r.range(1, 6) {
+                    let k = *r.pick(&[ka, kb, kc]);
+                    ops.push(Op::Press(k));
+                    ops.push(Op::Gap(*r.pick(&[1u32, 3, 20, 50, 300])));
+                    ops.push(Op::Release(k));
+                    ops.push(Op::Gap(*r.pick(&[1u32, 2, 10, 100, 1000, 2500])));
+                }
+                ops.push(Op::Press(kj));
+                ops.push(Op::Gap(2));
+                ops.push(Op::Release(kj));
+                ops.push(Op::Gap(300));
+                case.ops = ops;
+                case.set("pop", "loop");
+                case.set("b_mode", "strict");
+                case.set("b_seed", r.next_u64());
+                case.set("compare_recording", 1);
+                case.set("min_cfg", 0);
+                case.set("min_gaps", 0);
+                case.set("min_ops", 0);
+                return case;
+            }
             // the final silence of a loop run is capped at 6 s: configurations whose longest timer is
             // longer than that (a 65535 ms chord timeout...) cannot be judged at the end
             let mut spec = gen_general(&mut r, &o);
@@ -319,6 +347,14 @@ fn check_loop(case: &Case, want_sample: bool) -> RunOut {
             let f = |t: &Vec<OutEv>| outs_short(&t.iter().skip(i.saturating_sub(2)).take(8).cloned().collect::<Vec<_>>());
             o.set_fail("C07:real-loop-differs-from-loop-protocol", format!("output #{i} differs: real loop thread [{}] stepper (idle-blocking protocol) [{}]; ops {}", f(&b.outs), f(ta), ops_short(&case.ops)), vec![]);
             return o;
+        }
+        if case.param_flag("compare_recording") {
+            let rec_a = format!("{:?}", a.k.dynamic_macros);
+            if rec_a != b.dynamic_macros {
+                o.set_fail("C07:recording-differs-on-the-real-loop", format!("dynamic macro recorded through idle periods: real loop {} stepper {}; ops {}", b.dynamic_macros, rec_a, ops_short(&case.ops)), vec![]);
+                return o;
+            }
+            o.count("loop.recording-equal-to-stepper", 1);
         }
         o.count("loop.strict-equal-to-stepper", 1);
     } else if !b.down_at_end.is_empty() && quiescence_bound(&case.cfg, &case.ops) > 6_000 {
